@@ -1,6 +1,6 @@
 (* Model/C13Check.v — print / parse round trip. *)
 From Coq Require Import ZArith QArith String Ascii List Bool.
-From PT Require Import Str Dec Py Loaders Formula FormulaMachine AtomEnv Pyparse TableEnv Printer C01Check.
+From PT Require Import Str Dec Py Loaders Formula FormulaMachine AtomEnv Pyparse TableEnv Mixture PyparseMix Printer C01Check.
 From PT.Gen Require Import ElementBase.
 Import ListNotations.
 
@@ -73,10 +73,9 @@ Definition reparse_model_agrees (E : aenv) (T : ptable) (c : c13case) : bool :=
   match r_name c with
   | Some _ => true
   | None =>
-      match parse_compound E T (r_str c), r_back c with
-      | Some (ROk f), RStruct s' => frag_r0 (FGroup (f_struct f)) (FGroup s')
-      | Some (RErr _), RErr' _ => true
-      | None, RErr' _ => true
+      match parse_formula E T (r_str c), r_back c with
+      | RMOk m, RStruct s' => frag_r0 (FGroup (f_struct (m_f m))) (FGroup s')
+      | RMErr _, RErr' _ => true
       | _, _ => false
       end
   end.
